@@ -428,6 +428,12 @@ def run_checks(ctx):
             continue
         d = parse_point(pts[0])
         still = predicate(d) is not None
+        if e.get("status") == "fixed" and still:
+            # a repaired defect is back (or its repair is incomplete): the regression witness is the failing input
+            found_input = True
+            ctx.violation("regression-" + e["id"], "c10-point %08x %d %d\n# C10: the defect %s, recorded as fixed by commit %s, is back: %s\n# implementation: %s\n# witness: %s\n%s"
+                          % (wp[0], wp[1], wp[2], e["id"], e.get("commit", "?"), predicate(d), pts[0], e.get("witness", ""),
+                             open(e["witness"]).read().split("\n", 1)[1] if e.get("witness") else ""))
         if e.get("status") == "known" and still and in_class(e["id"], d) and has_signature(e["id"], d, errname):
             ctx.known_finding(e, "%s [%s] witness %s: %s (%d grid points in this class)" % (e["id"], e.get("signature", ""), e.get("witness", ""), e.get("text", ""), waived.get(e["id"], 0)))
         ctx.notes.setdefault("known_witness_lines", []).append(pts[0])
